@@ -141,11 +141,21 @@ func c07Struct(args []string) {
 	r.Class("small-store-invariants")
 
 	// ---- (b) capacity and eviction at 2^20 clients
-	if r.Only() == "" {
+	for _, eraCase := range []bool{false, true} {
+		if r.Only() != "" {
+			break
+		}
 		server.VerifReset()
 		rng := r.Rng("c07b")
 		capN := server.VerifTSSCap
 		fillBase := base + 1e9
+		tag := ""
+		if eraCase {
+			// the store fills while the NTP era rolls over (2036-02-07 06:28:16 UTC): raw timestamps of the
+			// later clients are smaller than those of the earlier ones, their activity is not
+			fillBase = 2085978496*1e9 - int64(capN)*3/2
+			tag = "|across the NTP era boundary"
+		}
 		t0 := time.Now()
 		for i := 0; i < capN; i++ {
 			rxIn := fillBase + int64(i)*3 + rng.Int64N(3)
@@ -168,7 +178,14 @@ func c07Struct(args []string) {
 		if _, _, err := server.VerifCheckStore(); err != nil {
 			r.Violation("store|state:"+firstWord(err.Error())+"|full store", "fill", err.Error())
 		}
+		// the clients were served in time order: the least recently active one is the first
+		if minID, minQ, ok := server.VerifMinClient(); ok && minID != "f0" {
+			r.Violation("store|state:index does not name the least recently active client"+tag, "fill", map[string]any{"index_names": minID, "its_rank": t64u(minQ), "least_recently_active": "f0"})
+		}
 		nNew := r.Pick(20000, 300000)
+		if eraCase {
+			nNew = r.Pick(4000, 60000)
+		}
 		for k := 0; k < nNew; k++ {
 			id := fmt.Sprintf("n%d", k)
 			minID, minQ, ok := server.VerifMinClient()
@@ -190,7 +207,7 @@ func c07Struct(args []string) {
 				rxIn = fillBase + int64(capN)*3 + int64(k)*5 + rng.Int64N(5)
 			}
 			rx64 := ntp.Time64FromTime(time.Unix(0, rxIn))
-			older := minQ.After(rx64)
+			older := t64After(minQ, rx64) // as times; across the era boundary the raw comparison does not apply
 			clk.now.Store(rxIn + 50)
 			nid := fmt.Sprintf("new%d", k)
 			if rng.IntN(10) == 0 { // an existing client instead of a newcomer
@@ -225,17 +242,17 @@ func c07Struct(args []string) {
 				r.Class("at-capacity:known-client-served")
 			case older:
 				if newIn || !minStill || n != capN {
-					r.Violation("store|state:newcomer older than the least recently active client was not served statelessly", id, w)
+					r.Violation("store|state:newcomer older than the least recently active client was not served statelessly"+tag, id, w)
 				}
 				r.Class("at-capacity:older-newcomer-stateless")
 			default:
 				if !newIn || minStill || n != capN {
-					r.Violation("store|state:newcomer at least as recent did not replace exactly the least recently active client", id, w)
+					r.Violation("store|state:newcomer at least as recent did not replace exactly the least recently active client"+tag, id, w)
 				}
 				if kind == 1 {
-					r.Class("at-capacity:equal-newcomer-evicts-min")
+					r.Class("at-capacity:equal-newcomer-evicts-min" + tag)
 				} else {
-					r.Class("at-capacity:newer-newcomer-evicts-min")
+					r.Class("at-capacity:newer-newcomer-evicts-min" + tag)
 				}
 			}
 			if k%4096 == 0 {
